@@ -54,6 +54,33 @@ CHECKS = {
             dict(harness="C04_T1", cover=["accepted"]),
         ],
     },
+    "C05": {
+        "quick": [
+            dict(harness="C05_T0", cover=["accepted"], bounds="52 concrete templates x symbolic Config (5 x 64-bit Style, Case, Width 0..8)"),
+            dict(harness="C05_F2", cover=["accepted"], bounds="accepted inputs among all 2-rune strings over D x symbolic Config"),
+            dict(harness="C05_F3", cover=["accepted", "lone-backslash"], bounds="accepted inputs among all 3-rune strings over D x symbolic Config"),
+        ],
+        "thorough": [
+            dict(harness="C05_T0", cover=["accepted"]),
+            dict(harness="C05_F2", cover=["accepted"]),
+            dict(harness="C05_F3", cover=["accepted", "lone-backslash"]),
+            dict(harness="C05_T1", cover=["accepted"], bounds="52 templates x one symbolic hole over D x symbolic Config"),
+            dict(harness="C05_Default", bounds="52 templates x one symbolic hole, default Fprint configuration"),
+        ],
+    },
+    "C18": {
+        "quick": [
+            dict(harness="C18_T0", cover=["accepted", "write-fault"], bounds="52 concrete templates x symbolic Config x writer failing after k bytes (k symbolic)"),
+            dict(harness="C18_F2", cover=["accepted", "write-fault"], bounds="accepted 2-rune inputs x symbolic Config x symbolic write-fault offset"),
+            dict(harness="C18_F3", cover=["accepted", "write-fault"], bounds="accepted 3-rune inputs x symbolic Config x symbolic write-fault offset"),
+        ],
+        "thorough": [
+            dict(harness="C18_T0", cover=["accepted", "write-fault"]),
+            dict(harness="C18_F2", cover=["accepted", "write-fault"]),
+            dict(harness="C18_F3", cover=["accepted", "write-fault"]),
+            dict(harness="C18_T1", cover=["accepted", "write-fault"], bounds="52 templates x one symbolic hole x symbolic Config x symbolic write-fault offset"),
+        ],
+    },
     "C10": {
         "quick": [
             dict(harness="C10_F2", cover=["fault", "fault-not-reached"], bounds="all 2-rune inputs over D x every fault position k in [0,2] (k symbolic)"),
@@ -201,6 +228,10 @@ META = {
                 note="inputs longer than the bounds, code points outside D and the std decoders behind string/[]byte/io.Reader sources (smoke-tested concretely) are outside the claim; goroutines run under the deterministic baton schedule plus a drain phase after return"),
     "C04": dict(text="Intrinsic (source, AST) check on every accepting path within the bounds: the source characters at each recorded position spell the documented token (operators, reserved words, quote characters, $ ${ $(( ( ) ` names, literals, #), Pos/End inside the source, Pos <= End, non-empty nodes have non-zero End, children nest, siblings are ordered; columns in characters (non-ASCII representatives included). The source runes are symbolic, so spelling is a solver obligation. " + BOUNDED,
                 note="alias-free; literal spelling is skipped when the source contains a line continuation; when the source contains '<<' only the starts of siblings/children are compared (a here-document redirection ends at its delimiter line); Comment.End is excluded as the property says"),
+    "C05": dict(text="Metamorphic round trip on every accepting path within the bounds, for every bit pattern of the printer Config: the printed text is accepted and its skeleton (with ; and newline identified, singleton lists collapsed) equals the original's, here-document bodies byte for byte, node kinds unchanged. " + BOUNDED,
+                note="trees come from the parser on bounded inputs; Width in 0..8; sources with a line continuation inside a word or inside a here-document are excluded (go.sh keeps such words as two literals; the properties exclude continuations inside words); known finding KF-C05-lone-backslash"),
+    "C18": dict(text="On every accepting path within the bounds and every Config bit pattern: printing the re-parsed output is byte-identical (fix-point), printing the same tree twice is identical, the tree skeleton (incl. Sep fields) is unchanged by Fprint, and a writer failing at any symbolic offset makes Fprint return an error. " + BOUNDED,
+                note="outputs are shorter than bufio's 4096-byte buffer, so the writer sees one Write at Flush (the multi-flush path is not exercised); trees with a lone trailing backslash are checked for purity/determinism only (see KF-C05-lone-backslash)"),
     "C10": dict(text="The fault position is a solver variable: for every position at which the RuneScanner (or io.Reader) starts failing during the call, ParseCommands returns a non-nil error that is the injected error, on every feasible path within the bounds. " + BOUNDED,
                 note="single persistent fault (once failing, always failing); faults that only a goroutine left behind after the return would hit are not counted (that is C06); deterministic baton schedule"),
     "C11": dict(text="Eval agrees with a C reference evaluator (precedence, associativity, laziness, effects on a map store, faults) for every 64-bit value of the symbolic operands on all shapes within the bounds; value obligations are discharged as identical terms or by z3. " + BOUNDED,
